@@ -49,4 +49,37 @@ Section Entry.
       | Ok (R, Um) => Ok (arr_to_list 9 R ++ arr_to_list 9 Um)
       end
     else Err OtherError.
+
+  (* ---- pydrex.minerals.voigt_averages ----
+     ints : nm na np nt, assemblage(na), then per mineral: phase n_grains n_orient_snaps n_frac_snaps grains_per_snapshot
+     floats: phis(np), tensors(36 each, phase-ordinal order), per mineral: orientations, fractions *)
+  Fixpoint chunksL {A} (w n : nat) (l : list A) : list (list A) :=
+    match n with O => [] | S n' => firstn w l :: chunksL w n' (skipn w l) end.
+
+  Fixpoint parse_minerals (hdr : list Z) (xs : list F) : list mineral :=
+    match hdr with
+    | ph :: ng :: nos :: nfs :: gsz :: hdr' =>
+        let gs := Z.to_nat gsz in let no := Z.to_nat nos in let nf := Z.to_nat nfs in
+        let os := map (fun snap => map aol (chunksL 9 gs snap)) (chunksL (gs * 9) no xs) in
+        let xs1 := skipn (no * gs * 9) xs in
+        let fs := chunksL gs nf xs1 in
+        mkMineral ph (Z.to_nat ng) os fs :: parse_minerals hdr' (skipn (nf * gs) xs1)
+    | _ => []
+    end.
+
+  Definition run_voigt (is : list Z) (xs : list F) : res (list F) :=
+    match is with
+    | nm :: na :: np :: nt :: rest =>
+        let na := Z.to_nat na in let np := Z.to_nat np in let nt := Z.to_nat nt in
+        let asm := firstn na rest in
+        let hdr := skipn na rest in
+        let phis := firstn np xs in
+        let tensors := map aol (chunksL 36 nt (skipn np xs)) in
+        let ms := parse_minerals hdr (skipn (np + 36 * nt) xs) in
+        match voigt_averages ms asm phis tensors with
+        | Err e => Err e
+        | Ok r => Ok (flat_map (arr_to_list 36) r)
+        end
+    | _ => Err OtherError
+    end.
 End Entry.
